@@ -47,7 +47,7 @@ class H:
             if abs(2 * r - n) > dd: continue
             for S in itertools.combinations(range(n), r):
                 a = zsum(xs[i] for i in S)
-                conj.append(mine <= zabs(2 * a - tot))
+                conj.append(z3.Or(mine <= 2 * a - tot, mine <= tot - 2 * a))
         c.check('suboptimal', z3.And(conj), 'CBLDM difference is not the smallest achievable under cardinality bound %s: bins %s' % (dd, c.outcome['bins']))
 
 
